@@ -873,6 +873,22 @@ def part_cumsum_einsum(ctx, env, meshes):
             ctx.expect(np.isfinite(out).all() and dinoutil.relerr(out, ref) <= TOL, f'diff:{name}:non-leading-axis',
                        f'{name} along axis {ax} sharded over z={z} differs from the unsharded sum by '
                        f'{dinoutil.relerr(out, ref):.3e}', dict(inp, axis=ax, shape=list(shape), x=xa.tolist()))
+      # ONE sharding object reused for arrays of different rank and different summed axes, in sequence (state carried
+      # between calls: a compiled prefix sum memoised per sharding must not remember the axis of the first call; seeded C07-5)
+      if z > 1:
+        shs = jax.sharding.NamedSharding(mesh, P(None, 'z'))
+        seq = [(-1, (3, 2 * z)), (1, (2, 2 * z, 3)), (1, (3, 2 * z)), (-2, (2, 2 * z, 3)), (-1, (5, 2 * z))]
+        for step, (ax, shape) in enumerate(seq):
+          xa = rng.standard_normal(shape)
+          for name, fn, ref in (('cumsum', jnu.cumsum, np.cumsum(xa, ax)),
+                                ('reverse_cumsum', jnu.reverse_cumsum, np.flip(np.cumsum(np.flip(xa, ax), ax), ax))):
+            out = np.asarray(fn(jnp.asarray(xa), ax, method='dot', sharding=shs))
+            ctx.case(('cumsum-seq', mk, step, name), nontrivial=True)
+            ctx.expect(out.shape == ref.shape and np.isfinite(out).all() and dinoutil.relerr(out, ref) <= TOL,
+                       f'diff:{name}:reused-sharding',
+                       f'{name} along axis {ax} of a {list(shape)} array (call {step + 1} of a sequence reusing one '
+                       f'NamedSharding P(None, z), z={z}) differs from the unsharded sum',
+                       dict(inp, sequence=[[a, list(sh_)] for a, sh_ in seq[:step + 1]], x=xa.tolist()))
     # the einsum patterns of the transforms and of the vertical products, both strategies, both orders
     k = 2
     m_, i_, j_, l_, g_ = k * xs, k * xs, k * ys, k * ys, k * z
